@@ -1704,7 +1704,9 @@ class InequalitySubsetState(SubsetState):
         else:
             right = data[self._right, view]
 
-        return self._operator(left, right)
+        # np.asarray since comparing single elements gives a plain bool, which
+        # does not behave like a mask (e.g. ~True is -2)
+        return np.asarray(self._operator(left, right))
 
     def copy(self):
         return InequalitySubsetState(self._left, self._right, self._operator)
